@@ -38,14 +38,18 @@ PLACEMENT_KINDS = ["toplevel_group_nested_twin", "toplevel_group_nested", "two_t
 def strategy(versions):
     @st.composite
     def strat(draw):
-        mode = draw(st.integers(0, 9))
+        mode = draw(st.integers(0, 12))
         start = draw(st.integers(0, len(gen_hed.TREE_MUTATIONS) - 1))
         v = draw(st.sampled_from(versions))
         ap = draw(st.booleans())
         ann = draw(gen_hed.annotation(v, allow_placeholder=ap, max_depth=3))
         tree = ann["tree"]
         mutation = None
-        if mode == 9:
+        if mode >= 10:
+            # a Def-expand group whose members are not (tag, true content): judged alike in every member order
+            mut = draw(gen_hed.mutated(ann, kinds=["defexpand_altered", "def_value_extra", "def_undeclared"], start=0))
+            tree, mutation = mut["tree"], mut["mutation"]
+        elif mode == 9:
             mut = draw(gen_hed.mutated(ann, kinds=PLACEMENT_KINDS, start=start))
             tree, mutation = mut["tree"], mut["mutation"]
         elif mode >= 7:
@@ -142,6 +146,6 @@ def warmup(tier):
 
 def parts(tier):
     versions = QUICK if tier == "quick" else ALL
-    return [Part("rewrite", oracle, strategy=strategy(versions), n=3000 if tier == "quick" else 96000),
+    return [Part("rewrite", oracle, strategy=strategy(versions), n=4000 if tier == "quick" else 96000),
             Part("spacing-of-delimiter-faults", oracle_spacing, strategy=spacing_strategy(versions),
                  n=800 if tier == "quick" else 24000)]
